@@ -4,7 +4,7 @@
 EXTENDS MCWalk
 \* ---- behaviours for replay on the real walker (S->I): the sequence of (worker, program counter) of every step
 VARIABLE h
-NextH == \E w \in W : Step(w) /\ h' = Append(h, <<w, pc[w]>>)
+NextH == \E w \in W : Step(w) /\ h' = Append(h, <<w, IF visited' # visited THEN "visit" ELSE pc[w]>>)
 SimSpec == (MCInit /\ h = <<>>) /\ [][NextH]_<<vars, h>>
-EmitBehaviour == AllDone => PrintT(<<"EMIT", ToJson([ch |-> [n \in DOMAIN tree.ch |-> tree.ch[n]], roots |-> tree.roots, quit |-> quitAt, h |-> h])>>)
+EmitBehaviour == AllDone => PrintT(<<"EMIT", ToJson([ch |-> [n \in DOMAIN tree.ch |-> tree.ch[n]], roots |-> tree.roots, err |-> tree.err, skip |-> tree.skip, quit |-> quitAt, h |-> h])>>)
 =============================================================================
